@@ -120,7 +120,14 @@ def corpus(pid, repo):
         jobs.append(("refactor", n, os.path.join(rdir, n, "patch.diff")))
     sdir = os.path.join(VERIF, "seeded")
     for n in sorted(os.listdir(sdir)) if os.path.isdir(sdir) else []:
-        if n.startswith(pid + "-"):
+        # a seed belongs to the property it breaks: normally the one in its name; meta.json's "breaks" overrides it
+        # when the change its author produced turned out to violate a neighbouring property instead
+        owner = n.split("-")[0]
+        try:
+            owner = json.load(open(os.path.join(sdir, n, "meta.json"))).get("breaks", owner)
+        except Exception:
+            pass
+        if owner == pid:
             jobs.append(("seed", n, os.path.join(sdir, n, "patch.diff")))
     out = []
     workers = max(2, min(16, (os.cpu_count() or 4)))
